@@ -742,15 +742,16 @@ func bigSlice(c *ev.Case, b *bigModel, keys []int, next func() int, nops int) bo
 			c.Add("big/s_popall_partial", 1)
 		}
 		c.Logf("S.%s at length %d", what, b.n)
+		// Values as the call left it, before any other call (Len() last)
+		if !b.layout(s.Values, what) {
+			return false
+		}
 		ln := -1
 		if !guard(c, "Len", func() { ln = s.Len() }) {
 			return false
 		}
 		if ln != b.n {
 			c.Failf("slice-len", "after %s: Len() = %d, the multiset model has %d elements", what, ln, b.n)
-			return false
-		}
-		if !b.layout(s.Values, what) {
 			return false
 		}
 	}
